@@ -191,6 +191,7 @@ def run_obligations(rep, group, obs, timeout, replay=None, family=None, lw=None,
             if o.cond is None:
                 o.assume = list(o.assume) + lem
     oblig.discharge(obs, lw=lw, timeout=timeout, levels=levels, cut_threshold=cut_threshold)
+    vacuity_guard(rep, group, obs, timeout)
     rep.add_obs(group, obs)
     s = oblig.summarize(obs)
     g = {"case": group}
@@ -224,6 +225,32 @@ def run_obligations(rep, group, obs, timeout, replay=None, family=None, lw=None,
     rep.log("%-52s obl=%d nontriv=%d disch=%d cand=%d inconc=%d  %.1fs" % (
         group, s["obligations"], s["nontrivial"], s["discharged"], s["candidate"], s["inconclusive"], time.time() - t0))
     return s
+
+
+def vacuity_guard(rep, group, obs, timeout):
+    """Reachability twin (DESIGN 2.11): the assumptions (+ path condition, injected lemmas, domain) of the most
+    constrained obligation of the group must be satisfiable, i.e. the twin with goal `true` must come back sat.
+    An unsat twin means every obligation of the group was discharged vacuously: harness error."""
+    from . import lower as L
+    from . import solve
+
+    cands = [o for o in obs if o.assume and not o.trivial]
+    if not cands:
+        return
+    o = max(cands, key=lambda x: len(x.assume))
+    lw = L.Lowerer()
+    try:
+        text, _ = L.build_query(lw, "true", (), o.roots(), list(o.assume), level=2)
+    except Exception:
+        return
+    r = solve.pool().run([(text, min(timeout, 10.0), "z3", False)])[0]
+    rep.twins["expected_sat"] += 1
+    if r["result"] == "sat":
+        rep.twins["got_sat"] += 1
+    elif r["result"] == "unsat":
+        rep.errors.append("vacuous assumptions in group %r (obligation %s): the reachability twin is unsat" % (group, o.id))
+    else:
+        rep.extra.setdefault("twins_undecided", []).append(group)
 
 
 def _js(m):
